@@ -65,3 +65,23 @@ Example rewrite_nonvacuous :
   (* "u%x.v%h@h"  ->  percent hack twice, then wildcard .v  ->  "t-u%x.v@h"?  no: u%x.v@h has domain h *)
   rewrite c [117; 37; 120; 46; 118; 37; 104; 64; 104] = Local [116; 45; 117; 64; 120; 46; 118].
 Proof. vm_compute. reflexivity. Qed.
+
+(* ---- the hash table behind cm_lookup / cm_has ----
+   rewrite() consults locals, percenthack and virtualdomains through constmap.c.  Base/Constmap.v models that table
+   (hash with case folding, mask, chains, most recent first); what it answers is exactly the abstract maps used above. *)
+From NQ Require Base.Constmap Send.ConstmapProofs.
+Theorem virtualdomains_table_is_last_match_lookup : forall lines s, Forall ConstmapProofs.bytes_ok lines -> ConstmapProofs.bytes_ok s ->
+  Constmap.constmap (Constmap.constmap_init lines true) s = cm_lookup (colon_entries lines) s.
+Proof. exact ConstmapProofs.constmap_colon. Qed.
+Print Assumptions virtualdomains_table_is_last_match_lookup.
+Theorem locals_table_is_membership : forall lines s, Forall ConstmapProofs.bytes_ok lines -> ConstmapProofs.bytes_ok s ->
+  (match Constmap.constmap (Constmap.constmap_init lines false) s with Some _ => true | None => false end) = cm_has lines s.
+Proof. exact ConstmapProofs.constmap_plain. Qed.
+Print Assumptions locals_table_is_membership.
+Theorem constmap_table_size : forall num, (num < 9223372036854775808)%N ->
+  exists k, Constmap.table_size num = (2 ^ k)%N /\ (64 <= Constmap.table_size num)%N /\ (num <= Constmap.table_size num)%N.
+Proof. exact ConstmapProofs.table_size_pow2. Qed.
+Print Assumptions constmap_table_size.
+Example constmap_nonvacuous :
+  Constmap.constmap (Constmap.constmap_init [[65;46;100;58;116]; [120]; [97;46;68;58;117]] true) [97;46;100] = Some [117].   (* "A.d:t", "x", "a.D:u" -> "a.d" gives "u" *)
+Proof. vm_compute. reflexivity. Qed.
